@@ -1,0 +1,197 @@
+//go:build verif
+
+package tls
+
+import (
+	"bytes"
+	"errors"
+	"sync/atomic"
+)
+
+// Verification hooks for property C34 (renegotiation under concurrent use of
+// the client Conn). The server half of this package never asks for nor
+// accepts a renegotiation; these hooks make a server Conn behave like a peer
+// that does (OpenSSL's SSL_renegotiate, IIS, ...), so that the CLIENT code
+// (handleRenegotiation under concurrent Handshake / Read / Write /
+// ConnectionState calls) can be exercised against this package's own record
+// layer. Nothing here is reachable without the build tag.
+
+// ZVC34RSendHelloRequest sends a HelloRequest handshake message (RFC 5246,
+// section 7.4.1.1) on an established TLS <= 1.2 server connection, as one
+// record, under the output mutex.
+func ZVC34RSendHelloRequest(c *Conn) error {
+	if c.isClient || !c.handshakeComplete() || c.vers == VersionTLS13 {
+		return errors.New("tls: ZVC34RSendHelloRequest needs an established TLS <= 1.2 server connection")
+	}
+	c.out.Lock()
+	defer c.out.Unlock()
+	if c.out.err != nil {
+		return c.out.err
+	}
+	if c.closeNotifySent {
+		return errShutdown
+	}
+	_, err := c.writeRecordLocked(recordTypeHandshake, new(helloRequestMsg).marshal())
+	return err
+}
+
+// ZVC34RServerRead is Conn.Read for a server that accepts a renegotiation
+// handshake from its client (secure renegotiation, RFC 5746): a handshake
+// message arriving between application data records starts a new server
+// handshake on the connection (Conn.Read would answer it with an
+// unexpected_message alert). renegotiated is the number of handshakes
+// completed during this call; after one, the call returns (possibly with
+// n == 0) instead of waiting for application data. Locking is the mirror image of the client's
+// handleRenegotiation: input half first, then handshakeMutex.
+func ZVC34RServerRead(c *Conn, b []byte) (n int, renegotiated int, err error) {
+	if c.isClient {
+		return 0, 0, errors.New("tls: ZVC34RServerRead called on a client connection")
+	}
+	if err := c.Handshake(); err != nil {
+		return 0, 0, err
+	}
+	if len(b) == 0 {
+		return 0, 0, nil
+	}
+
+	c.in.Lock()
+	defer c.in.Unlock()
+
+	for c.input.Len() == 0 {
+		if err := c.readRecord(); err != nil {
+			return 0, renegotiated, err
+		}
+		for c.hand.Len() > 0 {
+			if err := zvC34RServerRenegotiate(c); err != nil {
+				return 0, renegotiated, err
+			}
+			renegotiated++
+		}
+		if renegotiated > 0 && c.input.Len() == 0 {
+			// report the completed handshake now rather than after the next application data
+			return 0, renegotiated, nil
+		}
+	}
+
+	n, _ = c.input.Read(b)
+
+	if n != 0 && c.input.Len() == 0 && c.rawInput.Len() > 0 &&
+		recordType(c.rawInput.Bytes()[0]) == recordTypeAlert {
+		if err := c.readRecord(); err != nil {
+			return n, renegotiated, err // io.EOF on close_notify
+		}
+	}
+	return n, renegotiated, nil
+}
+
+func zvC34RServerRenegotiate(c *Conn) error {
+	if c.vers == VersionTLS13 {
+		c.sendAlert(AlertUnexpectedMessage)
+		return errors.New("tls: ZVC34RServerRead: handshake message on a TLS 1.3 connection")
+	}
+	c.handshakeMutex.Lock()
+	defer c.handshakeMutex.Unlock()
+
+	atomic.StoreUint32(&c.handshakeStatus, 0)
+	if c.handshakeErr = zvC34RServerHandshakeAgain(c); c.handshakeErr == nil {
+		c.handshakes++
+	} else {
+		c.flush()
+	}
+	return c.handshakeErr
+}
+
+// zvC34RServerHandshakeAgain follows serverHandshake and
+// serverHandshakeState.handshake, except for the renegotiation_info
+// extension: the ClientHello must carry the client's previous verify_data and
+// the ServerHello answers with both previous verify_data values.
+func zvC34RServerHandshakeAgain(c *Conn) error {
+	// The server keeps only the first Finished of a handshake in c.clientFinished /
+	// c.serverFinished (tls-unique); both verify_data values of the previous
+	// handshake are in its handshake log.
+	if c.handshakeLog == nil || c.handshakeLog.ClientFinished == nil || c.handshakeLog.ServerFinished == nil ||
+		len(c.handshakeLog.ClientFinished.VerifyData) != 12 || len(c.handshakeLog.ServerFinished.VerifyData) != 12 {
+		c.sendAlert(AlertInternalError)
+		return errors.New("tls: ZVC34RServerRead: verify_data of the previous handshake not available")
+	}
+	var prev [24]byte
+	copy(prev[:12], c.handshakeLog.ClientFinished.VerifyData)
+	copy(prev[12:], c.handshakeLog.ServerFinished.VerifyData)
+
+	clientHello, err := c.readClientHello()
+	if err != nil {
+		return err
+	}
+	if c.vers == VersionTLS13 {
+		c.sendAlert(AlertProtocolVersion)
+		return errors.New("tls: ZVC34RServerRead: renegotiation to TLS 1.3")
+	}
+	if !bytes.Equal(clientHello.secureRenegotiation, prev[:12]) {
+		c.sendAlert(AlertHandshakeFailure)
+		return errors.New("tls: ZVC34RServerRead: renegotiation ClientHello without the previous client verify_data")
+	}
+	hs := serverHandshakeState{c: c, clientHello: clientHello}
+
+	ri := clientHello.secureRenegotiation
+	clientHello.secureRenegotiation = nil
+	err = hs.processClientHello()
+	clientHello.secureRenegotiation = ri
+	if err != nil {
+		return err
+	}
+	hs.hello.secureRenegotiationSupported = true
+	hs.hello.secureRenegotiation = prev[:]
+
+	c.buffering = true
+	if hs.checkForResumption() {
+		c.didResume = true
+		if err := hs.doResumeHandshake(); err != nil {
+			return err
+		}
+		if err := hs.establishKeys(); err != nil {
+			return err
+		}
+		if err := hs.sendSessionTicket(); err != nil {
+			return err
+		}
+		if err := hs.sendFinished(c.serverFinished[:]); err != nil {
+			return err
+		}
+		if _, err := c.flush(); err != nil {
+			return err
+		}
+		c.clientFinishedIsFirst = false
+		if err := hs.readFinished(nil); err != nil {
+			return err
+		}
+	} else {
+		c.didResume = false
+		if err := hs.pickCipherSuite(); err != nil {
+			return err
+		}
+		if err := hs.doFullHandshake(); err != nil {
+			return err
+		}
+		if err := hs.establishKeys(); err != nil {
+			return err
+		}
+		if err := hs.readFinished(c.clientFinished[:]); err != nil {
+			return err
+		}
+		c.clientFinishedIsFirst = true
+		c.buffering = true
+		if err := hs.sendSessionTicket(); err != nil {
+			return err
+		}
+		if err := hs.sendFinished(nil); err != nil {
+			return err
+		}
+		if _, err := c.flush(); err != nil {
+			return err
+		}
+	}
+
+	c.ekm = ekmFromMasterSecret(c.vers, hs.suite, hs.masterSecret, hs.clientHello.random, hs.hello.random)
+	atomic.StoreUint32(&c.handshakeStatus, 1)
+	return nil
+}
